@@ -58,6 +58,30 @@ DESC = {
  'C11-4': 'same site as C12-1 (found independently)',
  'C20-3': 'Notifications._highest_block made monotonic (max) in on_block',
  'C20-4': 'a _notifying flag makes _maybe_notify return early while a notify round is awaited',
+ 'C01-3': 'advance_block enumerates only the spendable outputs (output index = position among spendable outputs)',
+ 'C01-4': 'advance_block chooses the unspendable rule from state.height (the previous block) instead of block.height',
+ 'C02-3': 'History.backup truncates the straddling row only if it loses more than one entry',
+ 'C02-4': 'History.clear_excess returns early when the history DB is one flush ahead of the UTXO DB',
+ 'C05-3': 'backup_block deletes the undo row (own durable write) before flush_backup commits',
+ 'C05-4': 'flush_utxo_db writes the UTXO state record outside the batch',
+ 'C08-3': 'mempool: a late DB-height check abandons a refresh attempt whose touched set (no longer an accumulator) is lost',
+ 'C08-4': 'mempool: dependency retry loop moved into the 200-hash batch, a single pass across batches',
+ 'C12-3': 'Merkle.branch_and_root copies its input only if it is not a list (appends to the caller\'s list on odd rows; TSC form then differs)',
+ 'C12-4': 'MerkleCache._extend_to guard reduced to the truncation counter (concurrent extensions)',
+ 'C13-3': '_chunk_offsets uses a skip_tx that does not read the last output script / locktime',
+ 'C13-4': 'read_output reads the value unsigned while TxOutput.serialize packs it signed',
+ 'C14-3': '_compact_hashX returns early for single-row histories (row keeps its old flush id)',
+ 'C14-4': '_compact_prefix no longer clears hist_map per hashX (stale entries re-enter the delete set)',
+ 'C15-3': 'Daemon.height(): cached height only ever raised (best height seen)',
+ 'C15-4': 'undo keys little-endian (key order != height order from height 256 on)',
+ 'C16-3': 'block_headers computes the cost from the unclamped count again (OverflowError; cost hits other sessions)',
+ 'C16-4': 'tx_hashes_at_blockheight caches the RPCError of a refused height (a refused request changes a shared cache)',
+ 'C17-3': 'DB.read_headers reads count*80 bytes but reports the clamped count',
+ 'C17-4': 'hashX_subscribe registers the subscription before address_status (a refused oversize subscription stays)',
+ 'C18-3': 'get_block builds its REST URL once outside the retry loop (ignores fail-over)',
+ 'C18-4': '_send_vector returns replaced errors before the warming-up scan (a -28 batch is not retried)',
+ 'C19-3': 'peer status helper tests last_good before bad (a bad peer that was recently good is advertised)',
+ 'C19-4': 'Peer.is_public: any host ending in .onion is public (is_valid not consulted)',
 }
 print('| change | what it does | checks run (quick tier) and verdict |')
 print('|---|---|---|')
